@@ -62,7 +62,9 @@ func (r *LightRenderer) stderrInternal(str string, allowNLCR bool, resetCode str
 				} else {
 					runes = append(runes, []rune(LF+resetCode)...)
 				}
-			} else if r != utf8.RuneError {
+			} else if r != utf8.RuneError || sz > 1 {
+				// An invalid byte is dropped; U+FFFD itself is a character like any other
+				// (and its column is counted)
 				runes = append(runes, r)
 			}
 		}
